@@ -65,7 +65,7 @@ P = {
    "§4 C12"),
  "C13": (True,
    "typed-AST protocol lints on Backtest.Run/worker (incl. the asset loop is left only when the name channel is exhausted) + SSA shared-write analysis rooted at `go b.worker` + go/cfg lock-state lints on both report types + comparator totality lint",
-   "Static analysis of structural conditions: Begin before the workers, End after Wait; per asset AssetBegin, exactly one Write per strategy (unconditional, fed by ComputeWithOutcome of that strategy on a fresh SliceToChan), AssetEnd; nothing reachable from a worker writes shared memory without a mutex, and both bundled reports touch their maps only under the mutex on every path; sort comparators do not convert a float difference to int, put the larger outcome first on all three orderings of two outcomes, and the entry presented as best is the first of the sorted slice; what a report appends to during a run starts empty in Begin/AssetBegin; every slice index in package backtest is the key of a range over that slice, a constant below the constant count of helper.Duplicate, or protected by a length check ('no run crashes'). Equality of the reported numbers with a direct evaluation is not decided.",
+   "Static analysis of structural conditions: Begin before the workers, End after Wait; per asset AssetBegin, exactly one Write per strategy (unconditional, fed by ComputeWithOutcome of that strategy on a fresh SliceToChan), AssetEnd; nothing reachable from a worker writes shared memory without a mutex, and both bundled reports touch their maps only under the mutex on every path; sort comparators do not convert a float difference to int, put the larger outcome first on all three orderings of two outcomes, and the entry presented as best is the first of the sorted slice; what a report appends to during a run starts empty in Begin/AssetBegin; the worker writes the two results of one ComputeWithOutcome call as they are, on snapshots from LastDays days back; every field of the result the two reports record is the specified term over Write's parameters (SSA form); every slice index in package backtest is the key of a range over that slice, a constant below the constant count of helper.Duplicate, or protected by a length check ('no run crashes'). Equality of the reported numbers with a direct evaluation is not decided.",
    "Trusts go/types, go/ssa+CHA, go/cfg. Repaired: unsynchronised reports (bd51cda), int(float difference) comparators (9dddcd8), HTMLReport.AssetEnd results[0] on an empty list (2e636f6).",
    "§4 C13"),
  "C14": (True,
